@@ -1,14 +1,13 @@
 ------------------------------ MODULE MCCrash ------------------------------
 (* Model-checking instance of Crash: nothing a .cfg cannot express is needed for the constants;
-   this module adds the vacuity witnesses (states the properties' antecedents must reach) used by
-   checks/C05.py with `-coverage`, and the bounded-exploration constraint of the thorough cfg. *)
+   this module adds EmptyDB (a .cfg cannot hold -1) and the vacuity witnesses: checks/C05.py lists
+   each as the only INVARIANT of a run that MUST report it violated (= the situation the
+   properties talk about is reachable). *)
 EXTENDS Crash
 
 EmptyDB == -1   \* a .cfg cannot hold a negative number: InitH <- EmptyDB
 
-\* antecedent witnesses: each must be violated (= reached) in the exhaustive run when listed as an
-\* INVARIANT of Crash_witness.cfg; the check runs that cfg with expect_violation.
 NeverFailedWrite == res.kind # "failed"
 NeverCrashedMidPrune == ~(res.kind = "crashed" /\ act.name = "PruneStep")
-NeverCrossedBack == ~(act.name = "Revert" /\ res.kind = "ok" /\ act.n = Boundary - 1 /\ mem.rf.w = 0 /\ disk.win.present)
+NeverCrossedBack == ~(act.name = "Revert" /\ res.kind = "ok" /\ act.n = Boundary - 1 /\ mem.rf.w = 0)
 =============================================================================
